@@ -133,7 +133,7 @@ CheckIdem(e) ==
     <<"crash", ~(Crashed(e.y) \/ Crashed(e.z))>>,
     <<"exact: the profile's output differs from the specification's canonicalizer pipeline (Canon!CanonRun)",
         e.prof \notin ModelledProfiles \/
-          LET c == CanonRun(e.prof, e.in) IN c.asked \/ (c.fail = e.y.fail /\ (c.fail \/ GettersO(c.opts, c.u) = e.y.g))>>,
+          LET c == CanonRunB(e.prof, e.bs, e.in) IN c.asked \/ (c.fail = e.y.fail /\ (c.fail \/ GettersO(c.opts, c.u) = e.y.g))>>,
     <<IF ~e.y.fail /\ IsGsbLike(e.prof) /\ HasEmptyPair(e.yp) THEN "not idempotent [F14: stored list has an empty-name/empty-value pair under skip-equals]"
       ELSE IF ~e.y.fail /\ Unfaithful(e.prof, e.yp) THEN "not idempotent [F03: stored list is not faithfully serialized]"
       ELSE "not idempotent",
